@@ -24,6 +24,9 @@ type Solver struct {
 	decl    map[string]bool
 	scopes  []scopeRec
 	nameCtr int
+	pendingInj []*Term
+	noAxioms bool
+	axiomed map[string]bool
 	Queries int
 	Time    time.Duration
 	Errors  int
@@ -32,8 +35,9 @@ type Solver struct {
 }
 
 type scopeRec struct {
-	names []*Term
-	decls []string
+	names  []*Term
+	decls  []string
+	axioms []string
 }
 
 func NewSolver(bin string, timeoutMs int) *Solver {
@@ -69,9 +73,24 @@ func (s *Solver) start() {
 		s.send("(set-logic ALL)")
 	}
 	s.send("(set-option :produce-models true)")
+	if !strings.Contains(s.bin, "cvc5") {
+		s.send(fmt.Sprintf("(set-option :timeout %d)", s.timeout))
+	}
 }
 
+const prelude = `(declare-sort Blob 0)
+(declare-fun bOfS (String) Blob)
+(declare-fun sOfB (Blob) String)
+(declare-fun blenraw (Blob) Int)
+(define-fun blen ((x Blob)) Int (ite (= x (bOfS "")) 0 (ite (<= (blenraw x) 0) (- 1 (blenraw x)) (blenraw x))))
+(declare-fun bfirst (Blob) (_ BitVec 8))
+(declare-fun blast (Blob) (_ BitVec 8))
+(declare-fun bat (Blob Int) (_ BitVec 8))
+(declare-fun bcat (Blob Blob) Blob)
+(assert (= (sOfB (bOfS "")) ""))`
+
 func (s *Solver) resetState() {
+	s.axiomed = map[string]bool{}
 	s.names = map[*Term]string{}
 	s.decl = map[string]bool{}
 	s.scopes = []scopeRec{{}}
@@ -103,6 +122,10 @@ func (s *Solver) Reset() {
 		s.send("(set-logic ALL)")
 	}
 	s.send("(set-option :produce-models true)")
+	if !strings.Contains(s.bin, "cvc5") {
+		s.send(fmt.Sprintf("(set-option :timeout %d)", s.timeout))
+	}
+	s.send(prelude)
 }
 
 func (s *Solver) Push() {
@@ -119,6 +142,9 @@ func (s *Solver) Pop() {
 	}
 	for _, d := range top.decls {
 		delete(s.decl, d)
+	}
+	for _, a := range top.axioms {
+		delete(s.axiomed, a)
 	}
 }
 
@@ -145,6 +171,21 @@ func (s *Solver) declare(t *Term) {
 			s.send(fmt.Sprintf("(declare-fun %s (%s) %s)", n, strings.Join(as, " "), sig.ret))
 		}
 	}
+	// injectivity of the String->Blob embedding, one instance per application
+	for _, app := range s.pendingInj {
+		if s.noAxioms {
+			break
+		}
+		arg := s.emit(app.Args[0])
+		key := arg
+		if s.axiomed[key] {
+			continue
+		}
+		s.axiomed[key] = true
+		sc.axioms = append(sc.axioms, key)
+		s.send(fmt.Sprintf("(assert (= (sOfB (bOfS %s)) %s))", arg, arg))
+	}
+	s.pendingInj = nil
 }
 
 // collect: like collectSyms but does not descend into already-named terms.
@@ -170,6 +211,10 @@ func (s *Solver) collect(t *Term, vars map[string]Sort, ufs map[string]ufSig) {
 				}
 				ufs[t.Name] = sig
 			}
+		case "bOfS":
+			if !isEmptyStr(t) {
+				s.pendingInj = append(s.pendingInj, t)
+			}
 		}
 		for _, a := range t.Args {
 			rec(a)
@@ -186,6 +231,9 @@ func (s *Solver) emit(t *Term) string {
 	}
 	if n, ok := s.names[t]; ok {
 		return n
+	}
+	if t.Op == "bvcount" {
+		return s.emit(expandCount(t))
 	}
 	var b strings.Builder
 	b.WriteByte('(')
@@ -278,6 +326,8 @@ func (s *Solver) CheckWith(extra *Term) string {
 // GetValues evaluates terms in the current model (must follow a sat answer
 // within the same scope). Returns raw SMT-LIB value strings.
 func (s *Solver) GetValues(ts []*Term) []string {
+	s.noAxioms = true
+	defer func() { s.noAxioms = false }()
 	out := make([]string, len(ts))
 	for i, t := range ts {
 		if l, ok := t.leafString(); ok && t.IsConst() {
